@@ -1397,6 +1397,10 @@ def r_tile_clamp(ctx):
             root = base[1] if composite else base
             clamped = composite or any(is_call(x, 'builtins.max') for x in walk_term(arg[2])) or \
                 any(x[0] == 'ifexp' and (x[2] == ('c', 0) or x[3] == ('c', 0)) for x in walk_term(arg[2][1]))
+            # a lower bound with two definitions one of which is the constant 0:  lo = x if x > 0 else 0  (statement form)
+            alts = f.alternatives(arg[2][1])
+            if alts and len(alts) >= 2 and any(t_ == ('c', 0) for _d, t_ in alts):
+                clamped = True
             role = 'chunk' if root == strand else ('marker' if root[0] == 'v' else None)
             if role:
                 forms[role] = (clamped, nd.lineno, show(arg)[:60])
